@@ -50,9 +50,12 @@ Definition introspection_ok (c : cls_rec) : bool :=
   && subset (inter (settable c) (features c)) (echoed c).   (* a parameter is stored under its own name, unchanged *)
 Definition class_checked (c : cls_rec) : bool := class_ok c && introspection_ok c.
 
-(* ---- finding F12: the committed exception list (also in known_findings.d/F12_*.json) *)
+(* ---- finding F12.  [offenders_before_fix]: the classes whose defining_features did not match their constructor in the pinned
+   tree (repaired in /repo by fix b273117).  [known_offenders]: the committed exception list that excuses a class in [table_ok];
+   it is EMPTY since the fix, so any class whose features and constructor disagree now fails the per-run obligation. *)
 Record offence := mkoff { oname : string; omissing : list string; oextra : list string }.
-Definition known_offenders : list offence :=
+Definition known_offenders : list offence := [].
+Definition offenders_before_fix : list offence :=
   [ mkoff "Quadrupole" ["num_steps"; "tracking_method"] [];
     mkoff "Screen" ["is_blocking"] [];
     mkoff "Undulator" ["is_active"] [];
